@@ -9,6 +9,7 @@
  * behaviour abort the child. */
 #include "mxv.h"
 #include "wire.h"
+#include "san.h"
 #include <unistd.h>
 #include <errno.h>
 #include <signal.h>
@@ -152,6 +153,20 @@ static void run_scenario(int si, sres_t *out)
             }
             world_pump(&w, 50);
             world_free_sessions(&w);
+            if (S->resumed == 2)
+            {
+                /* rotate the server's ticket key: the ticket the client holds is refused, a full handshake follows and the
+                   NewSessionTicket REPLACES the one stored in the client's session id object */
+                static const unsigned char name2[16] = "mxv-ticket-key-2", old[16] = "mxv-ticket-key-1";
+                static const unsigned char sk2[32] = { 9, 9, 9, 4, 5, 6, 7, 8, 9, 10, 11, 12, 13, 14, 15, 16, 17, 18, 19, 20, 21, 22, 23, 24, 25, 26, 27, 28, 29, 30, 31, 32 };
+                static const unsigned char hk2[32] = { 7, 7, 7, 29, 28, 27, 26, 25, 24, 23, 22, 21, 20, 19, 18, 17, 16, 15, 14, 13, 12, 11, 10, 9, 8, 7, 6, 5, 4, 3, 2, 1 };
+                if (matrixSslLoadSessionTicketKeys(w.s[1].keys, name2, sk2, 32, hk2, 32) < 0 ||
+                    matrixSslDeleteSessionTicketKey(w.s[1].keys, (unsigned char *) old) < 0)
+                {
+                    out->any_api_error = 2;
+                    return;
+                }
+            }
             env_live_reset();
             env_track(1);
             rc = world_new_sessions(&w);
@@ -307,41 +322,9 @@ static void record_child(pid_t pid, int rfd, long k)
     if (got != (ssize_t) sizeof(r))
     {
         /* abnormal end: classify from the sanitizer report */
-        char kind[160] = "", line[512];
-        FILE *f = fopen(errpath, "r");
+        char kind[160] = "";
         memset(&r, 0, sizeof(r));
-        if (f)
-        {
-            while (fgets(line, sizeof(line), f))
-            {
-                char *p;
-                line[strcspn(line, "\n")] = 0;
-                if ((p = strstr(line, "SUMMARY: AddressSanitizer: ")))
-                {
-                    /* "SUMMARY: AddressSanitizer: heap-use-after-free /path/file.c:123 in func" */
-                    char what[64] = "", path[200] = "", func[80] = "";
-                    if (sscanf(p + 27, "%63s %199s in %79s", what, path, func) >= 2)
-                    {
-                        char *b = strrchr(path, '/');
-                        char *c = strchr(b ? b + 1 : path, ':');
-                        if (c) *c = 0;
-                        snprintf(kind, sizeof(kind), "asan-%s|%s|%s", what, b ? b + 1 : path, func);
-                    }
-                    break;
-                }
-                if ((p = strstr(line, ": runtime error: ")) && !kind[0])
-                {
-                    char *b, *c;
-                    *p = 0;
-                    b = strrchr(line, '/');
-                    b = b ? b + 1 : line;
-                    c = strchr(b, ':');
-                    if (c) *c = 0;
-                    snprintf(kind, sizeof(kind), "ubsan|%s|%.60s", b, p + 17);
-                }
-            }
-            fclose(f);
-        }
+        san_classify_file(errpath, kind, sizeof(kind));
         if (!kind[0])
         {
             if (WIFSIGNALED(status))
@@ -420,6 +403,7 @@ int main(int argc, char **argv)
     add_scen("tls12-rsa-badcert", K_SESSION, V_TLS12, KX_RSA, 0, 0, 1, 0, 0, 0, 1);
     add_scen("tls13-rsa-badcert", K_SESSION, V_TLS13, KX_13_RSA, 0, 0, 1, 0, 0, 0, 1);
     add_scen("tls12-rsa-clientauth-tickets", K_SESSION, V_TLS12, KX_RSA, 0, 1, 0, 1, 0, 1, 1);
+    add_scen("tls12-rsa-tickets-rotated", K_SESSION, V_TLS12, KX_RSA, 0, 0, 0, 1, 2, 1, 1);
     add_scen("tls13-psk", K_SESSION, V_TLS13, KX_13_PSK, 0, 0, 0, 0, 0, 1, 1);
     add_scen("tls12-ecdhe-rsa", K_SESSION, V_TLS12, KX_ECDHE_RSA, TLS_ECDHE_RSA_WITH_AES_128_GCM_SHA256, 0, 0, 0, 0, 1, 0);
     add_scen("tls13-rsa-tickets", K_SESSION, V_TLS13, KX_13_RSA, 0, 0, 0, 1, 0, 1, 0);
